@@ -687,6 +687,8 @@ def ties_case(prog):
     kind = prog["kind"]
     X = np.array(prog["X"], dtype=float)
     Y = np.array(prog["Y"], dtype=int)
+    if prog.get("ycol"):
+        Y = Y.reshape(-1, 1)          # labels handed over as a column (a slice `table[:, 1:2]`)
     arrays = {"X": X, "Y": Y}
     m = new_model(kind, "euclidean")
     if kind == "SemiSupervisedOPF":
@@ -725,6 +727,8 @@ def shard_ties(shard, seed, res):
             if kind == "SemiSupervisedOPF" and len(set(lab[:3])) < 2:
                 continue
             prog = {"part": "ties", "kind": kind, "X": [list(corners[i]) for i in seq], "Y": list(lab)}
+            if sum(seq) % 5 == 0:
+                prog["ycol"] = True
             with horizon(30.0):
                 v = ties_case(prog)
             res.evaluations += 1
